@@ -7,7 +7,7 @@ CONSTANTS Shapes, Ts, Defaults
 VARIABLE c
 
 P(n) == [k |-> "prim", n |-> n]
-TOf(n) == CASE n = "u32" -> P("u32") [] n = "String" -> P("String") [] n = "unit" -> P("unit")
+TOf(n) == CASE n = "u32" -> P("u32") [] n = "String" -> P("String") [] n = "unit" -> P("unit") [] n = "DateTime" -> P("DateTime")
             [] n = "VecU8" -> [k |-> "vec", e |-> P("u8")]
             [] n = "MapStringU32" -> [k |-> "map", key |-> P("String"), val |-> P("u32")]
             [] n = "User" -> [k |-> "user", n |-> "User", args |-> <<>>]
